@@ -151,12 +151,15 @@ def emit(prog):
 
     out = [HEADER.rstrip("\n")]
     slots = object_slots(prog)
+    # "selfguards": the guards of behaviours also mention the agent (a conjunct that always
+    # holds), as guards of real programs do: they need `self` bound whenever they are checked
+    sg = "(self.position is not None) and " if prog.get("selfguards") else ""
     for b in prog["behaviors"]:
         out.append(f"behavior {b['name']}():")
         for c in b.get("pre", []):
-            out.append(f"    precondition: {pc(c)}")
+            out.append(f"    precondition: {sg}{pc(c)}")
         for c in b.get("inv", []):
-            out.append(f"    invariant: {pc(c)}")
+            out.append(f"    invariant: {sg}{pc(c)}")
         emit_body(b["body"], 1, out)
     for m in prog["monitors"]:
         out.append(f"monitor {m['name']}():")
